@@ -60,9 +60,16 @@ def gen(rng, tier):
             sd = L.gen_screen(rng, arity=2, n_treat=rng.randint(2, 5))
             params = dict(subset=rng.choice([1, 1, 2, 2, 3, 0, -1]), anchor=rng.choice([0, 0, 0, 1, 2, 3]))
         yield dict(kind="gen", cls=cls, params=params, screen=sd, seed=rng.randrange(10 ** 6))
+    for _ in range(50 * k):
+        # Pairwise on screens holding a vehicle-only well (all slots control) next to combinations and single agents
+        sd = L.gen_screen(rng, arity=rng.choice([2, 2, 2, 3]), n_treat=rng.randint(2, 5))
+        if rng.random() < 0.7:
+            sd = L.inject_all_control(rng, sd)
+        params = dict(subset=rng.choice([1, 1, 2, 3]), anchor=rng.choice([0, 0, 0, 1, 2]))
+        yield dict(kind="gen", cls="pairwise", params=params, screen=sd, seed=rng.randrange(10 ** 6))
     for _ in range(150 * k):
         cls = rng.choice(["mergemin", "mergetb", "fixed", "optimal", "nplate", "ensemble"])
-        sd = L.gen_screen(rng, style=rng.choice(["one_sample_plates"] * 4 + ["mixed"]) if cls in ("mergemin", "mergetb", "nplate", "ensemble") else None)
+        sd = L.gen_screen(rng, style=rng.choice(["one_sample_plates"] * 4 + ["mixed"] + ["many_plates"] * 3) if cls in ("mergemin", "mergetb", "nplate", "ensemble") else None)
         params = L.smoother_params(rng, sd)
         yield dict(kind="smooth", cls=cls, params=params, screen=sd, seed=rng.randrange(10 ** 6))
     for _ in range(110 * k):
